@@ -67,6 +67,8 @@ pub enum Mut {
     Cut { sel: u16, n: u8 },
     /// (e): prefix + [EOF] + [comment block] + 128-byte record starting with "SAUCE"
     Sauce(SauceRec),
+    /// not a change of the bytes: the file NAME handed to Buffer::from_bytes is FILE_NAMES[i] (see main.rs) instead of "c02.<ext>"
+    FileName(u8),
     /// write `val` (little endian, `width` bytes; width 14 = big endian 4) at the absolute offset `at` (bytes beyond the end are dropped)
     Put { at: u32, width: u8, val: u64 },
     /// text formats: replace the pick(sel, n)-th number of the text (maximal run of decimal digits, or of hex digits when `hex`)
@@ -385,6 +387,7 @@ pub fn apply(m: &Mut, b: &mut Vec<u8>, ctx: Ctx) {
             let out = build_sauce(r, b);
             *b = out;
         }
+        Mut::FileName(_) => {}
         Mut::Put { at, width, val } => write_le(b, *at as usize, *width, *val),
         Mut::Number { sel, hex, val } => {
             let runs = number_runs(b, *hex);
